@@ -365,7 +365,7 @@ def inherited_member_sites(ctx):
 
 
 # ------------------------------------------------------- small semantic helpers
-def slice_attrs(ctx, f, e, at, depth=0, seen=None):
+def slice_attrs(ctx, f, e, at, depth=0, seen=None, nodes=None):
     """Attribute names read in the backward slice of expression `e` evaluated at
     statement `at`: through every reaching definition of the locals it mentions
     and through the tests that decide which definition runs (control dependence
@@ -373,6 +373,8 @@ def slice_attrs(ctx, f, e, at, depth=0, seen=None):
     if/else, or routing it through an inlined helper."""
     seen = seen if seen is not None else set()
     out = {x.attr for x in ast.walk(e) if isinstance(x, ast.Attribute)}
+    if nodes is not None:
+        nodes.extend(x for x in ast.walk(e) if isinstance(x, ast.Attribute))
     if depth > 6:
         return out
     for x in ast.walk(e):
@@ -386,7 +388,7 @@ def slice_attrs(ctx, f, e, at, depth=0, seen=None):
             if isinstance(d, ast.For):
                 val = d.iter
             if val is not None:
-                out |= slice_attrs(ctx, f, val, d, depth + 1, seen)
+                out |= slice_attrs(ctx, f, val, d, depth + 1, seen, nodes)
             # control dependence: tests of the ifs that enclose the definition but not the use
             anc_at = set()
             p = at
@@ -396,7 +398,7 @@ def slice_attrs(ctx, f, e, at, depth=0, seen=None):
             p = ctx.m.parent.get(d)
             while p is not None and id(p) not in anc_at:
                 if isinstance(p, (ast.If, ast.While)):
-                    out |= slice_attrs(ctx, f, p.test, p, depth + 1, seen)
+                    out |= slice_attrs(ctx, f, p.test, p, depth + 1, seen, nodes)
                 p = ctx.m.parent.get(p)
     return out
 
